@@ -35,6 +35,6 @@ PROPS = {
                         "bloom-filter cases (6%) are kept short (each flush writes ~120 MB of filter files) and skip the seam-completeness check; persistent-read-cache cases skip it too (fastcache writes with os calls)",
                         "a panic inside a search leaves the search's table cursor open; with bg=true conditions whose prune path is known to panic are not sent through SearchSeriesWithOpts (they are with bg=false)"],
         "quick": {"runs": 22000, "budget_s": 110, "workers": 14},
-        "thorough": {"runs": 300000, "budget_s": 1500, "workers": 16},
+        "thorough": {"runs": 300000, "budget_s": 1200, "workers": 16},
     },
 }
